@@ -12,18 +12,67 @@ def flaky(part):
     return part.assign(fl=part["rid"] % 3)
 
 
+def _ident(part):
+    return part
+
+
 def build_query(spec, scratch=None):
     import dask_expr as dx
 
     from vmon import progcase, tables
 
     t = spec["t"]
-    if t == "prog":
+    if t in ("prog", "prog_proj"):
         b = progcase.Built(spec["prog"], scratch).build_sources()
         b.eval_dx(spec.get("method"))
-        return b.out_dx
+        return b.out_dx if t == "prog" else b.out_dx[spec["cols"]]
+    if t == "pq":
+        import os
+        import tempfile
+
+        from vmon import layouts
+
+        base = scratch or os.environ.get("VMON_SCRATCH") or tempfile.gettempdir()
+        path = os.path.join(base, f"pq15-{spec['ds']}-{spec['nfiles']}")
+        n = 70
+        pdf = tables.make_table({"seed": spec["ds"], "n": n, "index": "range"})
+        pdf.index = pd.Index(np.arange(n) * 2 + 1, name="ix")
+        if not os.path.exists(path):
+            # file sizes far from their listing order: 2, 25, 4, 14, ... rows
+            sizes = {4: [2, 30, 5, 33], 5: [2, 25, 4, 30, 9], 7: [2, 20, 3, 15, 4, 21, 5]}[spec["nfiles"]]
+            cuts = list(np.cumsum(sizes)[:-1])
+            tmp = path + f".tmp{os.getpid()}"
+            layouts.build(pdf, {"kind": "cuts", "cuts": [int(c) for c in cuts], "via": "from_map", "divisions": "known"}).to_parquet(tmp)
+            try:
+                os.rename(tmp, path)
+            except OSError:
+                pass
+        r = dx.read_parquet(path, filesystem=spec["fs"], calculate_divisions=bool(spec.get("cd")))
+        v = spec["variant"]
+        if v == "proj":
+            return r[["g"]] + 1
+        if v == "proj2":
+            return r[["rid", "u"]]
+        if v == "full":
+            return r
+        if v == "loc":
+            return r.loc[31:105]
+        if v == "series":
+            return r.rid
+        return r[r.i > 1][["rid", "g"]]
     pdf = tables.make_table(spec["table"])
     d = dx.from_pandas(pdf, npartitions=spec.get("np", 3), sort=spec.get("sort", True))
+    if t == "gb":
+        v = spec["variant"]
+        base = d.map_partitions(_ident) if "mp" in v else d
+        # no column selection on the groupby itself: a later projection is pushed into the groupby's frame operand
+        # (the table of these specs only has numeric columns; nothing sits between the groupby and its input)
+        g = base.groupby(spec["by"]).sum()
+        if v.endswith("proj"):
+            return g[["u"]]
+        if v == "agg_series":
+            return g["rid"]
+        return g
     if t == "sort":
         kw = {k: spec[k] for k in ("npartitions", "upsample") if spec.get(k) is not None}
         if spec["kind"] == "set_index":
@@ -44,8 +93,10 @@ def build_query(spec, scratch=None):
 
 def flags_of(spec):
     """(order, index) flags of the result"""
-    if spec["t"] == "prog":
+    if spec["t"] in ("prog", "prog_proj"):
         return spec["flags"]["order"], spec["flags"]["index"]
+    if spec["t"] == "gb":
+        return False, True
     if spec["t"] == "sort":
         return spec["by"] in ("u", "rid"), True
     if spec["t"] == "flaky_sum":
